@@ -179,9 +179,13 @@ ExecS(x, p, s) ==
            [] x.k = "scope" ->
                 \* child scope: init, require, execute of the body against it; the child is
                 \* popped again whether or not the body failed; the error (if any) propagates
-                LET s1 == [s EXCEPT !.sc = Append(@, EmptyScope)]
+                \* variant "seed" (Scope::new_with): the scope's own state initialiser puts U := 5 into the CHILD state
+                \* before the body is initialised, and after a successful body its merge function writes K0 := 5
+                \* into the caller's top scope (it finds U in the child handed to it); nothing else crosses the border
+                LET s1 == [s EXCEPT !.sc = Append(@, IF x.v = "seed" THEN [EmptyScope EXCEPT !["U"] = 5] ELSE EmptyScope)]
                     s2 == ExecB(x.b, p \o <<1>>, ReqB(x.b, p \o <<1>>, InitB(x.b, p \o <<1>>, s1)))
-                IN [s2 EXCEPT !.sc = SubSeq(@, 1, Len(@) - 1)]
+                    s3 == [s2 EXCEPT !.sc = SubSeq(@, 1, Len(@) - 1)]
+                IN IF x.v = "seed" /\ s3.st = "ok" THEN SetTop(s3, "K0", 5) ELSE s3
 
 ExecB(body, p, s) ==
     IF Len(body) = 0 \/ s.st # "ok" THEN s
@@ -200,15 +204,16 @@ RunProg(prog, script, fault) == RunProgX(prog, script, fault, <<>>, NoVal)
 
 ---------------------------------------------------------------------------
 (* program universe for model checking: all bodies with exactly n statements *)
-CONSTANT LeafVariants      \* {"plain", "ins0", "req0"} for C03; {"ins0", "log"} for C15
+CONSTANT LeafVariants      \* {"plain", "ins0", "req0"} for C03; {"ins0", "log"} for C15; "seed" switches the seeded scopes on
 
 RECURSIVE BodiesOf(_), StmtsOf(_)
 StmtsOf(n) ==
     IF n = 0 THEN {}
-    ELSE (IF n = 1 THEN {Leaf(v) : v \in LeafVariants} ELSE {})
+    ELSE (IF n = 1 THEN {Leaf(v) : v \in LeafVariants \ {"seed"}} ELSE {})
          \cup {While(b) : b \in BodiesOf(n - 1)}
          \cup {If(b) : b \in BodiesOf(n - 1)}
          \cup {Scope(b) : b \in BodiesOf(n - 1)}
+         \cup (IF "seed" \in LeafVariants THEN {[Scope(b) EXCEPT !.v = "seed"] : b \in BodiesOf(n - 1)} ELSE {})
          \cup UNION {{IfElse(b, e) : b \in BodiesOf(i), e \in BodiesOf(n - 1 - i)} : i \in 0..(n - 1)}
 BodiesOf(n) ==
     IF n = 0 THEN {<<>>}
@@ -326,16 +331,26 @@ RootBumps == {i \in Idx : Out[i].kind = "leaf" /\ Out[i].ph = "exec" /\ Out[i].f
                            /\ StmtAt(prog, Out[i].p).v = "ins0" /\ LevelOf(Out[i].sc, "K0") = 1}
 HasOutside(kind, v) == \E nd \in Outside : nd[1] = "leaf" /\ kind = "leaf" /\ StmtAt(prog, nd[2]).v = v
 HasOutsideLoop == \E nd \in Outside : nd[1] = "cond" /\ IsLoopCond(nd[2])
+RECURSIVE HasSeed(_)
+HasSeed(body) == \E i \in 1..Len(body) : (body[i].k = "scope" /\ body[i].v = "seed") \/ HasSeed(body[i].b) \/ HasSeed(body[i].e)
 RootAccounting ==
     End.result = "ok" =>
       /\ End.root["IT"] = (IF HasOutsideLoop THEN Cardinality(RootPasses) ELSE NoVal)
-      /\ End.root["K0"] = (IF HasOutside("leaf", "ins0") THEN Cardinality(RootBumps) ELSE NoVal)
+      \* (a seeded scope's merge function writes K0 as well: accounted for by SeedStaysInside below)
+      /\ ~HasSeed(prog) => End.root["K0"] = (IF HasOutside("leaf", "ins0") THEN Cardinality(RootBumps) ELSE NoVal)
 \* a scope body starts from an empty child scope each time it is entered
 ScopeEntryFresh ==
     \A i \in Idx : i > 1 /\ D(i) > D(i - 1) =>
         /\ D(i) = D(i - 1) + 1
-        /\ Out[i].sc[D(i)] = EmptyScope \/ (Out[i].ph = "init" /\ Out[i].kind = "cond" /\ IsLoopCond(Out[i].p)
-                                              /\ Out[i].sc[D(i)] = [EmptyScope EXCEPT !["IT"] = 0])
+        /\ \E base \in {EmptyScope, [EmptyScope EXCEPT !["U"] = 5]} :     \* (seeded scopes start with their U := 5)
+              \/ Out[i].sc[D(i)] = base
+              \/ (Out[i].ph = "init" /\ Out[i].kind = "cond" /\ IsLoopCond(Out[i].p)
+                    /\ Out[i].sc[D(i)] = [base EXCEPT !["IT"] = 0])
+\* what a scope's own initialiser inserts stays inside the scope: the caller's U is never touched, and U = 5 is only
+\* ever seen above the root scope
+SeedStaysInside ==
+    /\ \A i \in Idx : Out[i].sc[1]["U"] = 7
+    /\ End.root["U"] = 7
 
 TypeOK == End.result \in {"ok", "err"}
 =============================================================================
